@@ -193,6 +193,28 @@ pub fn readcmp_main(a: &Args) {
             None => rep.count("outcome.ok"),
             Some(m) => {
                 rep.count("outcome.mismatch");
+                // Is the only difference that text consisting of blanks alone came back empty?
+                fn blank_fold(v: &J) -> J {
+                    match v {
+                        // whitespace-only runs of text (whole values, or the pieces between character references,
+                        // CDATA sections and comments) are what the reader loses: compare modulo whitespace
+                        J::String(s) if s.chars().any(|c| c.is_whitespace()) => J::String(s.chars().filter(|c| !c.is_whitespace()).collect()),
+                        J::Array(a) => J::Array(a.iter().map(blank_fold).collect()),
+                        J::Object(o) => J::Object(o.iter().map(|(k, v)| (k.clone(), blank_fold(v))).collect()),
+                        other => other.clone(),
+                    }
+                }
+                let folded = Expect { dump: blank_fold(&rec["expected"]), carried: Default::default() };
+                let dump_folded = blank_fold(&dump);
+                if fmt == "xml" && canon::with_nan_class(nan, || expect::compare(&folded, &dump_folded, false)).is_none() {
+                    rep.violation(
+                        &format!("{}:reader:whitespace-only-text", prop),
+                        &format!("a whitespace-only run of element text was dropped at {} ({}.{}): expected {} got {}", m.path, m.class, m.prop, m.expected, m.actual),
+                        replay,
+                        json!({"tags": rec["tags"]}),
+                    );
+                    continue;
+                }
                 let sig_ref = if m.vtype == "Ref" || m.vtype == "Content" { rec["sig_ref"].as_str().unwrap_or("") } else { "" };
                 rep.violation(
                     &format!("{}:{}:{}{}{}", prop, m.kind, m.vtype, sigbase, sig_ref),
